@@ -10,7 +10,7 @@ Model of wild's AArch64 range-extension thunk machinery (property C11):
   libwild/src/elf_writer.rs   `maybe_get_thunk_for_relocation` (value written into the branch)
 Core-only imports (the driver links this file).
 
-### `assign_thunk_blocks` (code as of fix `c11-thunk-block-placement`)
+### `assign_thunk_blocks`
 Objects arrive in address order as `(start, end)` of their post-GC bytes in the primary part.
 The Rust loop keeps `prev_block_id`/`prev_block_pos` ("previous" mode) and
 `pending_next = Some(id, first_file, first_object_start)` + `pending_last = (file, end)` ("next"
@@ -30,7 +30,7 @@ object of a pending group, the owner flag of the last one — are emitted when t
 Every emitted assignment also carries the ghost field `pos`: the position of the block in the
 pre-thunk coordinates (= `end` of the owner; the Rust's `prev_block_pos`).
 
-The pre-fix automaton (`runUnfixed`) is kept for the regression witness in `Props/C11.lean`.
+The pre-fix automaton (`run`) is kept for the regression witness in `Props/C11.lean`.
 -/
 import WildModel.Model.Insn
 namespace Wild.Thunks
@@ -88,7 +88,39 @@ def emitEnd (id : Nat) (befores : List Obj) (last : Obj) : List (Obj × Asg) :=
   | [] => [(last, ⟨id, true, last.stop⟩)]
   | f :: bs => (f, ⟨id, true, f.stop⟩) :: (bs ++ [last]).map (fun m => (m, ⟨id, false, f.stop⟩))
 
-/-- The loop of `assign_thunk_blocks` after the first object; `nb` = `num_blocks`. -/
+/-- PROPOSED automaton (not in the tree): the loop after the first object; `nb` = `num_blocks`. -/
+def runProposed (R : Nat) : Nat → Mode → List Obj → List (Obj × Asg) × Nat
+  | nb, .prev _ _, [] => ([], nb)
+  | nb, .pend id _ bef last, [] => (emitEnd id bef last, nb)
+  | nb, .prev id pos, o :: rest =>
+      if o.stop - pos ≥ R then runProposed R (nb + 1) (.pend nb o.start [] o) rest
+      else
+        let r := runProposed R nb (.prev id pos) rest
+        ((o, ⟨id, false, pos⟩) :: r.1, r.2)
+  | nb, .pend id fs bef last, o :: rest =>
+      if o.stop - fs < R then runProposed R nb (.pend id fs (bef ++ [last]) o) rest
+      else
+        let placed := emitPlaced id bef last
+        if o.stop - last.stop ≥ R then
+          let r := runProposed R (nb + 1) (.pend nb o.start [] o) rest
+          (placed ++ r.1, r.2)
+        else
+          let r := runProposed R nb (.prev id last.stop) rest
+          (placed ++ (o, ⟨id, false, last.stop⟩) :: r.1, r.2)
+
+/-- PROPOSED `assign_thunk_blocks` (patch c11-thunk-block-placement-proposal.diff). -/
+def assignThunkBlocksProposed (R : Nat) : List Obj → List (Obj × Asg) × Nat
+  | [] => ([], 0)
+  | o :: rest =>
+      let r := runProposed R 1 (.prev 0 o.stop) rest
+      ((o, ⟨0, true, o.stop⟩) :: r.1, r.2)
+
+/-! ### The automaton of the code as it is
+`run`: the loop of `assign_thunk_blocks` after the first object (`nb` = `num_blocks`);
+`assignThunkBlocks`: `assign_thunk_blocks(objects, max_branch_range, assign) -> num_blocks`.
+In "next" mode the block is placed on the object whose `end` first reaches the range measured
+from the first object's start, i.e. at a position that is already out of range of the first object. -/
+
 def run (R : Nat) : Nat → Mode → List Obj → List (Obj × Asg) × Nat
   | nb, .prev _ _, [] => ([], nb)
   | nb, .pend id _ bef last, [] => (emitEnd id bef last, nb)
@@ -98,52 +130,23 @@ def run (R : Nat) : Nat → Mode → List Obj → List (Obj × Asg) × Nat
         let r := run R nb (.prev id pos) rest
         ((o, ⟨id, false, pos⟩) :: r.1, r.2)
   | nb, .pend id fs bef last, o :: rest =>
-      if o.stop - fs < R then run R nb (.pend id fs (bef ++ [last]) o) rest
-      else
-        let placed := emitPlaced id bef last
-        if o.stop - last.stop ≥ R then
-          let r := run R (nb + 1) (.pend nb o.start [] o) rest
-          (placed ++ r.1, r.2)
-        else
-          let r := run R nb (.prev id last.stop) rest
-          (placed ++ (o, ⟨id, false, last.stop⟩) :: r.1, r.2)
+      if o.stop - fs ≥ R then
+        let r := run R nb (.prev id o.stop) rest
+        (emitPlaced id (bef ++ [last]) o ++ r.1, r.2)
+      else run R nb (.pend id fs (bef ++ [last]) o) rest
 
-/-- `assign_thunk_blocks(objects, max_branch_range, assign) -> num_blocks`. -/
 def assignThunkBlocks (R : Nat) : List Obj → List (Obj × Asg) × Nat
   | [] => ([], 0)
   | o :: rest =>
       let r := run R 1 (.prev 0 o.stop) rest
       ((o, ⟨0, true, o.stop⟩) :: r.1, r.2)
 
-/-! ### The automaton before fix `c11-thunk-block-placement`
-In "next" mode the block was placed on the object whose `end` first exceeded the range measured
-from the first object's start, i.e. at a position that is already out of range of the first object. -/
-
-def runUnfixed (R : Nat) : Nat → Mode → List Obj → List (Obj × Asg) × Nat
-  | nb, .prev _ _, [] => ([], nb)
-  | nb, .pend id _ bef last, [] => (emitEnd id bef last, nb)
-  | nb, .prev id pos, o :: rest =>
-      if o.stop - pos ≥ R then runUnfixed R (nb + 1) (.pend nb o.start [] o) rest
-      else
-        let r := runUnfixed R nb (.prev id pos) rest
-        ((o, ⟨id, false, pos⟩) :: r.1, r.2)
-  | nb, .pend id fs bef last, o :: rest =>
-      if o.stop - fs ≥ R then
-        let r := runUnfixed R nb (.prev id o.stop) rest
-        (emitPlaced id (bef ++ [last]) o ++ r.1, r.2)
-      else runUnfixed R nb (.pend id fs (bef ++ [last]) o) rest
-
-def assignThunkBlocksUnfixed (R : Nat) : List Obj → List (Obj × Asg) × Nat
-  | [] => ([], 0)
-  | o :: rest =>
-      let r := runUnfixed R 1 (.prev 0 o.stop) rest
-      ((o, ⟨0, true, o.stop⟩) :: r.1, r.2)
-
 /-! ## `provably_in_range` and the decision to create a thunk -/
 
 /-- What `provably_in_range` can see of the definition: `DYNAMIC` flag; a definition in the primary
 part of an object with range `(def_start, def_end)` (`primary_range_for_symbol = Some`); anything
-else (IFUNC, non-primary part: `primary_range_for_symbol = None`). -/
+else (IFUNC, a symbol with a PLT entry — e.g. an interposable function of a shared object, which is
+branched to via its PLT entry —, non-primary part: `primary_range_for_symbol = None`). -/
 inductive Target where
   | dynamic
   | primary (defStart defStop : Nat)
@@ -165,14 +168,24 @@ def needsThunk (R : Nat) (src : Obj) (t : Target) : Bool := !provablyInRange R s
 (`finalise_layout`: `*addr += config.thunk_size` per sorted symbol). -/
 def thunkAddr (blockAddr idx : Nat) : Nat := blockAddr + THUNK_SIZE * idx
 
-/-- `maybe_get_thunk_for_relocation` for `R_AARCH64_CALL26/JUMP26` (no page mask, bias 0): the
-direct value if it is in `[-2^27, 2^27)`, else `thunk_address - place` if the block of the place
-has a thunk for the symbol, else the "out of range ... no thunk allocated" error. -/
-def branchValue (value place : BitVec 64) (thunk : Option (BitVec 64)) : Option (BitVec 64) :=
-  if (-134217728 : Int) ≤ value.toInt ∧ value.toInt < 134217728 then some value
-  else match thunk with
-    | some th => some (th - place)
-    | none => none
+/-- `AllowedRange::contains` of the `R_AARCH64_CALL26/JUMP26` rows: `[-2^27, 2^27)`. -/
+def inBranchRange (v : Int) : Bool := decide (-134217728 ≤ v ∧ v < 134217728)
+
+inductive BranchError where
+  /-- "Branch relocation out of range by .. but no thunk allocated" -/
+  | noThunk
+  /-- the thunk itself is out of range: "Relocation .. outside of bounds" from `write_to_buffer` -/
+  | thunkOutOfRange
+  deriving Repr, DecidableEq
+
+/-- `maybe_get_thunk_for_relocation` + the range check of `write_to_buffer` for
+`R_AARCH64_CALL26/JUMP26` (no page mask, bias 0).  `direct` is `S + A - P`; `viaThunk` is
+`thunk_address - P` when the block of the place has a thunk for the symbol. -/
+def branchOutcome (direct : Int) (viaThunk : Option Int) : Except BranchError Int :=
+  if inBranchRange direct then .ok direct
+  else match viaThunk with
+    | some v => if inBranchRange v then .ok v else .error .thunkOutOfRange
+    | none => .error .noThunk
 
 /-! ## `write_thunk` -/
 
